@@ -89,4 +89,17 @@ TEXT = {
                 "pathlib operations are functions of the path strings.",
         "technique": "contract-based deductive verification: own VC generator over the real source + z3/cvc5",
     },
+    "C13": {
+        "level": "MementoFunction._update_dependencies (the real source, with version / fn_reference / hash_rules / _update_fn_reference and increment_global_fn_generation) is proved, for every state of the "
+                 "global generation counter and version cache, every set of collected rules and every combination of their change reports, to raise nothing on any path and to leave either the FRESH state "
+                 "(version = what the from-scratch computation returns, recorded in the cache at the current generation) or the coherent CACHED state (entry of the current generation, no collected rule reports "
+                 "a change, version = the entry's); an entry of an older generation or a reporting rule always forces recomputation, a reporting rule additionally bumps the generation; explicitly versioned "
+                 "functions and locked clusters leave everything untouched. MementoFunction.__init__ is proved to bump the generation by exactly one on every registration. did_change of the four rule kinds "
+                 "is proved exact (undefined symbol: now defined; global variable: serialisation differs from the recorded one; plain function: resolves to a different object; memento function: no longer "
+                 "resolves to a memento function).",
+        "note": "Partial: coherence with a fresh process across a whole history is the stated lemma over these per-call contracts under environment assumption E (every in-process event that changes the "
+                "from-scratch version is a registration or makes a collected rule report change) -- E is not provable from the code. Assumed: _recompute_version returns the from-scratch version; within one call "
+                "rule answers do not change. In __init__ the function's own run-time asserts are taken as preconditions.",
+        "technique": "contract-based deductive verification: own VC generator over the real source + z3/cvc5",
+    },
 }
